@@ -529,4 +529,216 @@ theorem iter_idle_announces (s : State) (i : MyIntf) (l1 l2 : List MyIntf) (svc 
   obtain ⟨u, hu, hs, ha⟩ := hsent.status
   exact ⟨u, by rw [runIpCheck_services]; exact hu, hs, ha⟩
 
+/-! ### from the first announcement to the second -/
+
+theorem execRegisterResend_announced (s : State) (now j : Nat) (fullname : BList) (ifIdx : Nat) (key : BList) (svc : Service)
+    (idx : Nat) (h : Announced s key svc idx) : Announced (execRegisterResend s now j fullname ifIdx).1 key svc idx := by
+  unfold execRegisterResend
+  split
+  · rename_i u0 r0 i h0 _ _
+    simp only []
+    split
+    · exact Announced.aset_status idx ifIdx h h0
+    · exact h
+  · exact h
+
+theorem execRerun_announced (now j : Nat) (acc : State × List Out) (r : ReRun) (key : BList) (svc : Service) (idx : Nat)
+    (h : Announced acc.1 key svc idx) : Announced (execRerun now j acc r).1 key svc idx := by
+  unfold execRerun
+  cases r with
+  | registerResend t f k => exact execRegisterResend_announced acc.1 now j f k key svc idx h
+  | unregisterResend t p k v => exact h
+
+theorem execRerun_mono (now j : Nat) (acc : State × List Out) (r : ReRun) (o : Out) (h : o ∈ acc.2) :
+    o ∈ (execRerun now j acc r).2 := by
+  unfold execRerun
+  cases r <;> exact List.mem_append.mpr (Or.inl h)
+
+theorem runReruns_announced (s : State) (now j : Nat) (key : BList) (svc : Service) (idx : Nat) (h : Announced s key svc idx) :
+    Announced (runReruns s now j).1 key svc idx := by
+  unfold runReruns
+  exact foldl_inv (fun (a : State × List Out) => Announced a.1 key svc idx) (execRerun now j) _ (_, []) h
+    (fun a r _ ha => execRerun_announced now j a r key svc idx ha)
+
+theorem probingHandler_announced (s : State) (now j : Nat) (key : BList) (svc : Service) (idx : Nat) (h : Announced s key svc idx) :
+    Announced (probingHandler s now j).1 key svc idx := by
+  unfold probingHandler
+  exact foldl_inv (fun (a : State × List Out) => Announced a.1 key svc idx) (probingOnIntf now j) _ (s, []) h
+    (fun a i _ ha => probingOnIntf_announced now j a i key svc idx ha)
+
+theorem probingHandler_reruns_mono (s : State) (now j : Nat) (x : ReRun) (h : x ∈ s.reruns) :
+    x ∈ (probingHandler s now j).1.reruns := by
+  unfold probingHandler
+  exact foldl_inv (fun (a : State × List Out) => x ∈ a.1.reruns) (probingOnIntf now j) _ (s, []) h
+    (fun a i _ ha => probingOnIntf_reruns_mono now j a i x ha)
+
+theorem execRerun_reruns (now j : Nat) (acc : State × List Out) (r : ReRun) : (execRerun now j acc r).1.reruns = acc.1.reruns := by
+  unfold execRerun
+  cases r with
+  | registerResend t f k =>
+    simp only []
+    unfold execRegisterResend
+    split
+    · simp only []
+      split <;> rfl
+    · rfl
+  | unregisterResend t p k v => rfl
+
+theorem runReruns_reruns (s : State) (now j : Nat) :
+    (runReruns s now j).1.reruns = s.reruns.filter (fun r => !decide (now ≥ r.next)) := by
+  unfold runReruns
+  exact foldl_inv (fun (a : State × List Out) => a.1.reruns = s.reruns.filter (fun r => !decide (now ≥ r.next)))
+    (execRerun now j) _ (_, []) rfl (fun a r _ ha => (execRerun_reruns now j a r).trans ha)
+
+/-- the daemon after the first announcement, before the second: runs, `i` there once, the
+    invariant, the service `Announced` on `i`, and its `RegisterResend` for `t2` still queued -/
+structure After (s : State) (i : MyIntf) (l1 l2 : List MyIntf) (svc : Service) (t2 : Nat) : Prop where
+  running : s.stopped = false
+  intfs : IntfsOk s i l1 l2
+  inv : Inv s
+  announced : Announced s (lower svc.fullname) svc i.index
+  rerun : ReRun.registerResend t2 svc.fullname i.index ∈ s.reruns
+
+theorem runReruns_intfs (s0 : State) (now j : Nat) : (runReruns s0 now j).1.intfs = s0.intfs := by
+  unfold runReruns
+  refine foldl_inv (fun (a : State × List Out) => a.1.intfs = s0.intfs) (execRerun now j) _ (_, []) rfl ?_
+  intro a r _ ha
+  unfold execRerun
+  cases r with
+  | registerResend t f k =>
+    simp only []
+    unfold execRegisterResend
+    split
+    · simp only []
+      split <;> exact ha
+    · exact ha
+  | unregisterResend t p k v => exact ha
+
+theorem loopTail_frame (s : State) (now j : Nat) :
+    (loopTail s now j).1.intfs = s.intfs ∧ (loopTail s now j).1.stopped = s.stopped := by
+  unfold loopTail
+  obtain ⟨_, e2, e3, _⟩ := runIpCheck_registries (probingHandler (runReruns s now j).1 now j).1 now
+  obtain ⟨f1, f2⟩ := probingHandler_frame (runReruns s now j).1 now j
+  exact ⟨e2.trans (f1.trans (runReruns_intfs s now j)), e3.trans (f2.trans (runReruns_stopped s now j))⟩
+
+/-- an idle iteration before the re-run is due keeps the bundle -/
+theorem After.step {s : State} {i : MyIntf} {l1 l2 : List MyIntf} {svc : Service} {t2 : Nat} (h : After s i l1 l2 svc t2)
+    (now j : Nat) (hlt : now < t2) : After (iter s (idle now j)).1 i l1 l2 svc t2 := by
+  have hinv' := iter_inv s (idle now j) h.inv (idle_plain now j)
+  rw [iter_idle s now j h.running] at hinv' ⊢
+  obtain ⟨f1, f2⟩ := loopTail_frame { s with timers := s.timers.filter (· > now) } now j
+  refine ⟨f2.trans h.running, ⟨f1.trans h.intfs.split, h.intfs.other⟩, hinv', ?_, ?_⟩
+  · unfold loopTail
+    obtain ⟨u, hu, hs, ha⟩ := probingHandler_announced _ now j _ svc i.index
+      (runReruns_announced { s with timers := s.timers.filter (· > now) } now j _ svc i.index h.announced)
+    exact ⟨u, by rw [runIpCheck_services]; exact hu, hs, ha⟩
+  · unfold loopTail
+    obtain ⟨_, _, _, e4⟩ := runIpCheck_registries
+      (probingHandler (runReruns { s with timers := s.timers.filter (· > now) } now j).1 now j).1 now
+    rw [e4]
+    apply probingHandler_reruns_mono
+    rw [runReruns_reruns]
+    simp only [List.mem_filter]
+    refine ⟨h.rerun, ?_⟩
+    simp [ReRun.next]
+    omega
+
+theorem After.run {s : State} {i : MyIntf} {l1 l2 : List MyIntf} {svc : Service} {t2 : Nat} (j : Nat) :
+    ∀ (ts : List Nat) (s : State), After s i l1 l2 svc t2 → (∀ t ∈ ts, t < t2) → After (idleRun j s ts).1 i l1 l2 svc t2 := by
+  intro ts
+  induction ts with
+  | nil => intro s h _; exact h
+  | cons t ts ih =>
+    intro s h hts
+    exact ih _ (h.step t j (hts t (by simp))) (fun x hx => hts x (List.mem_cons_of_mem _ hx))
+
+/-! ### the second announcement through `iter` -/
+
+/-- the announcement went out again on `i` over some family in which the service has an address -/
+def SentAgain (outs : List Out) (i : MyIntf) (svc : Service) : Prop :=
+  ∃ v4, addrsOn svc i v4 ≠ [] ∧
+    Out.send i.index v4 none (announcePkt svc svc.fullname (uniqueRecords svc i {} v4)) ∈ outs
+
+/-- executing the queued `RegisterResend` of an announced service (requires probing) sends the
+    announcement again - the registry is there and has no renames by the invariant -/
+theorem execRegisterResend_again (s : State) (now j : Nat) (i : MyIntf) (l1 l2 : List MyIntf) (svc : Service)
+    (hinv : Inv s) (hi : IntfsOk s i l1 l2) (hprobe : svc.probe = true)
+    (hann : Announced s (lower svc.fullname) svc i.index) :
+    SentAgain (execRegisterResend s now j svc.fullname i.index).2 i svc := by
+  obtain ⟨u, hu, hs, ha⟩ := hann
+  have hsound := hinv.sound _ (alookup_mem hu)
+  -- the registry of `i` is in the map: otherwise nothing could be active in it
+  obtain ⟨i', hi', hidx, v0, _, hall0⟩ := hsound (hs.probe.trans hprobe) i.index ha
+  have hii := hi.unique hi' hidx
+  subst hii
+  cases hreg : alookup i'.index s.registries with
+  | none =>
+    exfalso
+    have hr : s.registry i'.index = {} := by simp [State.registry, hreg]
+    obtain ⟨a0, ha0⟩ := srv_mem_unique u i' v0
+    have := hall0 a0 (by rw [hr]; exact ha0)
+    rw [hr] at this
+    simp [Registry.isActive, alookup] at this
+  | some r0 =>
+    obtain ⟨v4, hne, hsend⟩ := registerResend_announces s now j svc.fullname i' u r0 hu hreg hi.find
+      (fun x hx hxi => hi.unique hx hxi) (hs.probe.trans hprobe) ha hsound
+    have hnc : r0.nameChanges = [] := by
+      have := (hinv.noRen i'.index).1
+      rwa [registry_of_lookup hreg] at this
+    refine ⟨v4, by rw [← hs.addrs]; exact hne, ?_⟩
+    have huniq : uniqueRecords u i' r0 v4 = uniqueRecords svc i' {} v4 := by
+      rw [hs.uniq]; exact uniqueRecords_congr (r := {}) hnc svc i' v4
+    have hres : r0.resolveName u.fullname = svc.fullname := by
+      simp [Registry.resolveName, hnc, alookup, hs.full]
+    rw [huniq, hres, hs.announce] at hsend
+    exact hsend
+
+theorem foldl_rerun_again (now j : Nat) (i : MyIntf) (l1 l2 : List MyIntf) (svc : Service) (t2 : Nat) (hprobe : svc.probe = true) :
+    ∀ (due : List ReRun) (acc : State × List Out), Inv acc.1 → IntfsOk acc.1 i l1 l2 →
+      Announced acc.1 (lower svc.fullname) svc i.index →
+      (SentAgain acc.2 i svc ∨ ReRun.registerResend t2 svc.fullname i.index ∈ due) →
+      SentAgain (due.foldl (execRerun now j) acc).2 i svc := by
+  intro due
+  induction due with
+  | nil =>
+    intro acc _ _ _ h
+    rcases h with h | h
+    · exact h
+    · simp at h
+  | cons x rest ih =>
+    intro acc hinv hi hann h
+    simp only [List.foldl_cons]
+    obtain ⟨hinv', hintfs'⟩ := execRerun_inv now j acc x hinv
+    have hi' : IntfsOk (execRerun now j acc x).1 i l1 l2 := ⟨hintfs'.trans hi.split, hi.other⟩
+    apply ih _ hinv' hi' (execRerun_announced now j acc x _ svc i.index hann)
+    rcases h with ⟨v4, hne, hm⟩ | hin
+    · exact Or.inl ⟨v4, hne, execRerun_mono now j acc x _ hm⟩
+    · rcases List.mem_cons.mp hin with heq | hrest
+      · left
+        subst heq
+        obtain ⟨v4, hne, hm⟩ := execRegisterResend_again acc.1 now j i l1 l2 svc hinv hi hprobe hann
+        exact ⟨v4, hne, by unfold execRerun; exact List.mem_append.mpr (Or.inr hm)⟩
+      · exact Or.inr hrest
+
+/-- SECOND ANNOUNCEMENT IN THE DAEMON: the idle iteration at the time the queued `RegisterResend`
+    is due (or any later one that still finds it) sends the announcement again. -/
+theorem iter_idle_reannounces {s : State} {i : MyIntf} {l1 l2 : List MyIntf} {svc : Service} {t2 : Nat}
+    (h : After s i l1 l2 svc t2) (hprobe : svc.probe = true) (now j : Nat) (hdue : now ≥ t2) :
+    SentAgain (iter s (idle now j)).2 i svc := by
+  rw [iter_idle s now j h.running]
+  unfold loopTail
+  have hinv2 : Inv ({ s with timers := s.timers.filter (· > now) } : State) := h.inv.congr_regs rfl rfl rfl
+  have h0 : Inv ({ ({ s with timers := s.timers.filter (· > now) } : State) with
+      reruns := s.reruns.filter (fun r => !decide (now ≥ r.next)) } : State) := hinv2.congr_regs rfl rfl rfl
+  have := foldl_rerun_again now j i l1 l2 svc t2 hprobe (s.reruns.filter (fun r => decide (now ≥ r.next)))
+    ({ ({ s with timers := s.timers.filter (· > now) } : State) with
+        reruns := s.reruns.filter (fun r => !decide (now ≥ r.next)) }, []) h0 ⟨h.intfs.split, h.intfs.other⟩ h.announced
+    (Or.inr (by
+      simp only [List.mem_filter]
+      exact ⟨h.rerun, by simp [ReRun.next]; omega⟩))
+  obtain ⟨v4, hne, hm⟩ := this
+  refine ⟨v4, hne, List.mem_append.mpr (Or.inl ?_)⟩
+  unfold runReruns
+  exact hm
+
 end Mdns.Responder
